@@ -274,11 +274,20 @@ type caProxy struct {
 	finals   map[string]int    // finalize (certificate issuance) POSTs per identifier
 	accounts int
 	managers map[string]*proxyReg // scenario tag → registration
+	downHits map[string]int       // requests to the "CA down" endpoint per scenario tag
+	fetches  map[string]int       // issued-certificate downloads per identifier
+	tampered map[string][]byte    // CA order id → PEM chain the proxy substitutes for the CA's
 }
 
 type proxyReg struct {
 	getCert func(*tls.ClientHelloInfo) (*tls.Certificate, error)
 	log     *scenLog
+	// tamper, if set, makes the proxy answer the certificate download with a chain whose leaf
+	// carries tamper(CSR public key) instead of the CSR's key (valid at now, for the CSR's names)
+	tamper func(pub crypto.PublicKey) crypto.PublicKey
+	now    time.Time
+	mu     sync.Mutex
+	leaves [][]byte // leaves substituted so far
 }
 
 var (
@@ -290,6 +299,7 @@ func sharedProxy(t *testing.T) *caProxy {
 	proxyOnce.Do(func() {
 		ca := autocert.VerifNewCAServer(t).ChallengeTypes("tls-alpn-01").Start()
 		p := &caProxy{ca: ca, caURL: ca.URL(), orders: map[string]int{}, orderOf: map[string]string{}, finals: map[string]int{}, managers: map[string]*proxyReg{},
+			downHits: map[string]int{}, fetches: map[string]int{}, tampered: map[string][]byte{},
 			hc: &http.Client{Transport: &http.Transport{MaxIdleConnsPerHost: 32}}}
 		p.srv = httptest.NewServer(p)
 		theProxy = p
@@ -298,7 +308,41 @@ func sharedProxy(t *testing.T) *caProxy {
 }
 
 func (p *caProxy) URL() string     { return p.srv.URL + "/" }
-func (p *caProxy) DownURL() string { return p.srv.URL + "/down/" }
+func (p *caProxy) DownURL(tag string) string { return p.srv.URL + "/down/" + tag + "/" }
+
+func (p *caProxy) downHitsFor(tag string) int {
+	p.mu.Lock()
+	defer p.mu.Unlock()
+	return p.downHits[tag]
+}
+
+// fetchesWithTag sums issued-certificate downloads whose identifier contains tag.
+func (p *caProxy) fetchesWithTag(tag string) (n int) {
+	p.mu.Lock()
+	defer p.mu.Unlock()
+	for id, c := range p.fetches {
+		if strings.Contains(id, tag) {
+			n += c
+		}
+	}
+	return
+}
+
+func (p *caProxy) setTamper(reg *proxyReg, f func(crypto.PublicKey) crypto.PublicKey) {
+	p.mu.Lock()
+	reg.tamper = f
+	p.mu.Unlock()
+}
+
+func (p *caProxy) regFor(ident string) *proxyReg {
+	var reg *proxyReg
+	for tag, rg := range p.managers {
+		if strings.Contains(ident, tag) {
+			reg = rg
+		}
+	}
+	return reg
+}
 
 func (p *caProxy) register(tag string, reg *proxyReg) {
 	p.mu.Lock()
@@ -345,6 +389,11 @@ func (p *caProxy) ServeHTTP(w http.ResponseWriter, r *http.Request) {
 	body, _ := io.ReadAll(r.Body)
 	path := r.URL.Path
 	if strings.HasPrefix(path, "/down/") {
+		if f := strings.SplitN(strings.TrimPrefix(path, "/down/"), "/", 2); len(f) > 0 {
+			p.mu.Lock()
+			p.downHits[f[0]]++
+			p.mu.Unlock()
+		}
 		w.Header().Set("Content-Type", "application/problem+json")
 		w.WriteHeader(403)
 		w.Write([]byte(`{"type":"urn:ietf:params:acme:error:unauthorized","detail":"verif: CA is down for this scenario","status":403}`))
@@ -401,10 +450,51 @@ func (p *caProxy) ServeHTTP(w http.ResponseWriter, r *http.Request) {
 		}
 	}
 	if strings.HasPrefix(path, "/new-cert/") {
+		oid := strings.TrimPrefix(path, "/new-cert/")
 		p.mu.Lock()
-		if id, ok := p.orderOf[strings.TrimPrefix(path, "/new-cert/")]; ok {
+		id, ok := p.orderOf[oid]
+		var reg *proxyReg
+		var tamper func(crypto.PublicKey) crypto.PublicKey
+		if ok {
 			p.finals[id]++
+			if reg = p.regFor(id); reg != nil {
+				tamper = reg.tamper
+			}
 		}
+		p.mu.Unlock()
+		if tamper != nil {
+			var outer struct{ Payload string }
+			var pay struct{ CSR string }
+			if json.Unmarshal(body, &outer) == nil {
+				if b, err := base64.RawURLEncoding.DecodeString(outer.Payload); err == nil {
+					json.Unmarshal(b, &pay)
+				}
+			}
+			if der, err := base64.RawURLEncoding.DecodeString(pay.CSR); err == nil {
+				if csr, err := x509.ParseCertificateRequest(der); err == nil {
+					names := csr.DNSNames
+					if len(names) == 0 {
+						names = []string{csr.Subject.CommonName}
+					}
+					leaf := mkLeaf(tamper(csr.PublicKey), reg.now.Add(-time.Hour), reg.now.Add(60*24*time.Hour), names...)
+					reg.mu.Lock()
+					reg.leaves = append(reg.leaves, leaf)
+					reg.mu.Unlock()
+					p.mu.Lock()
+					p.tampered[oid] = pemCerts(leaf, c51RootDE)
+					p.mu.Unlock()
+				}
+			}
+		}
+	}
+	var substitute []byte
+	if strings.HasPrefix(path, "/issued-cert/") {
+		oid := strings.TrimPrefix(path, "/issued-cert/")
+		p.mu.Lock()
+		if id, ok := p.orderOf[oid]; ok {
+			p.fetches[id]++
+		}
+		substitute = p.tampered[oid]
 		p.mu.Unlock()
 	}
 	req, err := http.NewRequestWithContext(r.Context(), r.Method, p.caURL+path, bytes.NewReader(body))
@@ -428,6 +518,9 @@ func (p *caProxy) ServeHTTP(w http.ResponseWriter, r *http.Request) {
 	}
 	out, _ := io.ReadAll(res.Body)
 	out = bytes.ReplaceAll(out, []byte(p.caURL), []byte(p.srv.URL))
+	if substitute != nil && res.StatusCode == 200 {
+		out = substitute
+	}
 	for k, vs := range res.Header {
 		if k == "Content-Length" {
 			continue
@@ -555,13 +648,14 @@ type mgrEnv struct {
 	cache *logCache
 	now   time.Time
 	tag   string
+	reg   *proxyReg
 }
 
 func newManager(t *testing.T, px *caProxy, tag string, log *scenLog, cache autocert.Cache, policy autocert.HostPolicy, caUp bool, now time.Time) *mgrEnv {
 	lc := &logCache{log: log, inner: cache}
 	url := px.URL()
 	if !caUp {
-		url = px.DownURL()
+		url = px.DownURL(tag)
 	}
 	man := &autocert.Manager{
 		Prompt:     autocert.AcceptTOS,
@@ -576,6 +670,7 @@ func newManager(t *testing.T, px *caProxy, tag string, log *scenLog, cache autoc
 			}},
 	}
 	autocert.VerifSetNow(man, func() time.Time { return now })
-	px.register(tag, &proxyReg{getCert: man.GetCertificate, log: log})
-	return &mgrEnv{man: man, log: log, cache: lc, now: now, tag: tag}
+	reg := &proxyReg{getCert: man.GetCertificate, log: log, now: now}
+	px.register(tag, reg)
+	return &mgrEnv{man: man, log: log, cache: lc, now: now, tag: tag, reg: reg}
 }
